@@ -433,7 +433,7 @@ def exec_src(ctx, s, tally, notes):
                 c = ab["case"]
                 samples.append({"source": " ".join(c["toks"]) if c["kind"] == "toks" else "%s d=%d" % (c["name"], c["d"]),
                                 "runs": ab["result"]["extra"]["runs"][:2]})
-            if ab.get("what") not in ("crash", "hang", "panic", "bad"):
+            if ab.get("what") not in ("crash", "hang", "panic", "bad", "overrun"):
                 continue
             c = ab["case"]
             if c["kind"] == "toks":
